@@ -291,7 +291,7 @@ def extra_c01(prop, tier, seed, profiles):
     impl_ops, spec_ops, keep = [], [], []
     shapes = {}
     exact = False
-    cur_tl = None
+    cur_tl, cur_start = None, None
     for op in ops:
         w = op.split(" ")
         if w[0] == "shape":
@@ -301,12 +301,13 @@ def extra_c01(prop, tier, seed, profiles):
         if w[0] in ("reset", "shape"):
             impl_ops.append(op); spec_ops.append(op); keep.append(None); continue
         if exact and w[0] == "tl" and w[1] == "0":
-            cur_tl = w
+            cur_tl, cur_start = w, None
             impl_ops.append(op); spec_ops.append("q" + op); keep.append(None)
         elif exact and w[0] == "start" and w[1] == "0":
+            cur_start = w
             impl_ops.append(op); spec_ops.append("q" + op); keep.append(None)
         elif exact and w[0] == "upd" and w[1] == "0" and cur_tl is not None:
-            impl_ops.append(op); spec_ops.append("q" + op); keep.append(cur_tl)
+            impl_ops.append(op); spec_ops.append("q" + op); keep.append((cur_tl, cur_start))
         else:
             impl_ops.append("#"); spec_ops.append("#"); keep.append(None)
     open(base + ".impl.ops", "w").write("\n".join(impl_ops) + "\n")
@@ -315,8 +316,9 @@ def extra_c01(prop, tier, seed, profiles):
     P.run_stream(P.MODEL_EXE, [], base + ".spec.ops", base + ".spec")
     impl, spec = P.read_lines(base + ".impl"), P.read_lines(base + ".spec")
     fails, checked, determined = [], 0, 0
-    for L, tlw in enumerate(keep):
-        if tlw is None: continue
+    for L, kept in enumerate(keep):
+        if kept is None: continue
+        tlw, startw = kept
         a, b = impl[L], spec[L]
         if a.startswith("panic") or b.startswith(("bad", "panic")): continue
         fields = shapes[tlw[2]]
@@ -332,6 +334,12 @@ def extra_c01(prop, tier, seed, profiles):
                     v = abs(f32(tok)) if fields[fi][0] in ("f32", "f64") else abs(int(tok))
                     mag[fi] = max(mag[fi], v)
             q += 2 + len(anim)
+        # the value given to the latest start_with takes part in the first segment too
+        if startw is not None:
+            for fi in anim:
+                tok = startw[2 + fi]
+                v = abs(f32(tok)) if fields[fi][0] in ("f32", "f64") else abs(int(tok))
+                if v == v and v != float("inf"): mag[fi] = max(mag[fi], v)
         av, bv = a.split(" "), b.split(" ")
         uw = impl_ops[L].split(" ")
         for fi in anim:
@@ -869,14 +877,22 @@ def extra_macro(prop, tier, seed, profiles):
         if "merged[" in o: hist["merged"] += 1
         if o != want:
             fails.append(dict(line=L, directive=f"spec documented reading of the {suite} input", op=op, got=o, want=want, ops=[op]))
-    return dict(checked=checked, fails=fails, evaluations=checked, hist=hist)
+    res = dict(checked=checked, fails=fails, evaluations=checked, hist=hist, notes=[], problems=[])
+    if prop in ("C15", "C16"):
+        # compiled program family: rustc + the real proc macro vs builder calls rendered from the Lean model's reading
+        import compiled
+        cf = compiled.compiled_family(prop, tier, seed)
+        res["checked"] += cf["checked"]; res["evaluations"] += cf["evaluations"]
+        res["fails"] += cf["fails"]; res["hist"].update(cf["hist"])
+        res["notes"] += cf["notes"]; res["problems"] += cf["problems"]
+    return res
 
 
 MACRO_FLOORS = {"quick": {"accepted": 1000, "rejected": 200}}
-PLANS["C15"] = dict(suites=[Suite("mtl", 4000, 200000, crate="macro")], floors={"quick": dict(MACRO_FLOORS["quick"], **{"merged": 100})}, extra=extra_macro,
+PLANS["C15"] = dict(suites=[Suite("mtl", 4000, 200000, crate="macro")], floors={"quick": dict(MACRO_FLOORS["quick"], **{"merged": 100, "compiled-cases": 40})}, extra=extra_macro,
                     assumptions=["the model starts at token level; syn's tokenisation and literal parsing are exercised by the correspondence (real source text, real parser), not modelled; hex/octal/binary literal forms are outside the generated grammar",
-                                 "quote! emission and rustc's compilation of the emitted code are exercised by the compiled program families (thorough tier), not modelled"])
-PLANS["C16"] = dict(suites=[Suite("manim", 3000, 150000, crate="macro")], floors=MACRO_FLOORS, extra=extra_macro,
+                                 "quote! emission and rustc's compilation of the emitted code are exercised by the compiled program family (lib/compiled.py: generated sentences really compiled through the macro and compared with builder calls rendered from the model's reading), not modelled"])
+PLANS["C16"] = dict(suites=[Suite("manim", 3000, 150000, crate="macro")], floors={"quick": dict(MACRO_FLOORS["quick"], **{"compiled-cases": 30})}, extra=extra_macro,
                     assumptions=["the outer block structure (default clause, arms) is taken as parsed; arm bodies go through the timeline! token model"])
 PLANS["C17"] = dict(suites=[Suite("mderive", 3000, 150000, crate="macro"), Suite("tl", 200, 10000)], floors=MACRO_FLOORS, extra=extra_macro,
                     assumptions=["behaviour of the derived API is exercised on the three derive shapes compiled into the core harness (all fields, #[animate] subset, remote proxy) and, in the thorough tier, on generated program families"])
